@@ -1013,6 +1013,10 @@ def event_graph(fn, role_of, ret_local=0, max_states=40000, branch_role=None, st
                     kb = frozenset(x for x in kb if x[0] != ll)
                 if fn.local_ty(ll) == "bool" and s.rv.k == "use" and s.rv.ops[0].kind == "const" and isinstance(s.rv.ops[0].const_value(), bool) and ll not in mut_borrowed(fn) and ll != ret_local:
                     kb = kb | {(ll, s.rv.ops[0].const_value())}
+                # a bool computed on this path (`let run = pending || !opt;` leaves `run = !opt` on one path): remembered with
+                # its defining statement, so that a later `if run` can be read as the test it stands for on this path
+                elif fn.local_ty(ll) == "bool" and s.rv.k in ("un", "bin", "use") and not (s.rv.k == "use" and (s.rv.ops[0].kind == "const" or (s.rv.ops[0].place is not None and s.rv.ops[0].place.is_local()))) and ll not in mut_borrowed(fn) and ll != ret_local:
+                    kb = kb | {(ll, ("defat", bb, si))}
                 # a scalar constant parked in an unnamed temporary (`tmp = 1; _0 = move tmp`): the value that is returned
                 elif fn.local_name(ll) is None and s.rv.k == "use" and s.rv.ops[0].kind == "const" and isinstance(s.rv.ops[0].const_value(), (int, str)) and not isinstance(s.rv.ops[0].const_value(), bool) and ll not in mut_borrowed(fn) and ll != ret_local:
                     kb = kb | {(ll, ("cst", s.rv.ops[0].const_value()))}
@@ -1156,6 +1160,24 @@ def event_graph(fn, role_of, ret_local=0, max_states=40000, branch_role=None, st
                     nd = decided | {(pk, val)} if pk is not None else decided
                     work.append((tgt, (node, frozenset(), str(lab), retv, nd, kb)))
                 continue
+            if branch_role is not None and bb not in br_roles and t.discr.place is not None and t.discr.place.is_local():
+                dyn = None
+                for kl, kv in kb:
+                    if kl == t.discr.place.local and isinstance(kv, tuple) and kv[0] == "defat":
+                        dyn = kv
+                if dyn is not None:
+                    st_ = fn.blocks[dyn[1]].stmts[dyn[2]]
+                    try:
+                        pred_ = _origin_of_def(fn, (dyn[1], "assign", st_), 10, set())
+                        r_ = branch_role(fn, bb, pred_)
+                    except Exception:
+                        r_ = None
+                    if r_ is not None:
+                        node = ("ev", _nk(bb, decided), r_)
+                        g.add(src, label, node)
+                        for lab, tgt in switch_edges(fn, bb):
+                            work.append((tgt, (node, frozenset(), str(lab), retv, decided, kb)))
+                        continue
             on_result = t.discr.place is not None and t.discr.place.is_local() and t.discr.place.local in aliases
             known = None
             if t.discr.place is not None and t.discr.place.is_local():
